@@ -12,6 +12,7 @@ import (
 	"math"
 	"sync"
 
+	"github.com/postalsys/muti-metroo/internal/verifhook"
 	"golang.org/x/crypto/chacha20poly1305"
 	"golang.org/x/crypto/curve25519"
 	"golang.org/x/crypto/hkdf"
@@ -125,6 +126,7 @@ func DeriveSessionKey(sharedSecret [KeySize]byte, streamID uint64,
 		panic(fmt.Sprintf("HKDF failed: %v", err))
 	}
 
+	verifhook.At("crypto.derive", streamID, initiatorPub, responderPub, isInitiator, sk.key)
 	return sk
 }
 
